@@ -920,10 +920,14 @@ func (c *Conn) handleStartTLS() {
 	// This is different from just calling reset() since we want the Backend to
 	// be able to see the information about TLS connection in the
 	// ConnectionState object passed to it.
-	if session := c.Session(); session != nil {
-		session.Logout()
-		c.setSession(nil)
+	// In one go, as in Close: the connection may be closed from another
+	// goroutine at the same time.
+	c.locker.Lock()
+	if c.session != nil {
+		c.session.Logout()
+		c.session = nil
 	}
+	c.locker.Unlock()
 	c.helo = ""
 	c.didAuth = false
 	c.reset()
